@@ -85,7 +85,8 @@ PROPS = {
         "level": "other",
         "rules": [("CP", 4, has("decision_nnf::")), ("TS", 7, has("TS-BAL")), ("DP", 3, has("topdown")),
                   ("GL", 1, has("component-cache")), ("SP", 10, has("SP1")),
-                  ("SH", 6, has("decision_nnf::")), ("RN", 7, has("RN4"))],
+                  ("SH", 6, has("decision_nnf::")), ("RN", 7, has("RN4")),
+                  ("WP", 3, has("update_hash_and_sat_set")), ("PR", 1, has("SATSolver"))],
         "explanation": "Conditioning of a possibly complemented d-DNNF pointer is sign-coherent (CP on cond_helper: return "
                        "contract, node-constructor parity, comparison parity); decide/pop balance on every path of topdown_h "
                        "(TS-BAL: one pop after SAT/Unknown, none after UNSAT, none before the first decide); UNSAT and an "
@@ -115,7 +116,7 @@ PROPS = {
     },
     "C10": {
         "level": "proof",
-        "rules": [("SP", 17, None), ("IM", 9, has("IM5")), ("HE", 3, has("scratch-private"))],
+        "rules": [("SP", 17, None), ("IM", 9, has("IM5")), ("HE", 3, has("scratch-private")), ("GL", 1, has("GL6"))],
         "explanation": "Structural proof of 'every per-node scratch slot is empty again when a public call returns', for all "
                        "call sequences: the only per-node mutable state is the two private RefCell fields (HE), the scratch "
                        "cell is written only by set_scratch/clear_scratch and semantic_hash only by cached_semantic_hash (IM5); "
@@ -128,7 +129,8 @@ PROPS = {
     "C11": {
         "level": "other",
         "rules": [("CP", 4, has("cached_semantic_hash:sign", "check_cached_hash_and_neg")), ("IM", 3, has("IM5:semantic_hash")),
-                  ("NB", 33, None), ("IC", 4, has("create_semantic_hash_map"))],
+                  ("NB", 33, None), ("IC", 4, has("create_semantic_hash_map")), ("GL", 5, has("GL7")),
+                  ("CP", 3, has("decision_nnf::builder::DecisionNNFBuilder::cond_helper"))],
         "explanation": "Hash values follow the pointer's sign (complemented -> negate(hash of the regular pointer)) and a node "
                        "found under the negated hash is returned complemented, in both semantic builders (CP-hash); the per-node "
                        "hash cache has one writer (IM5); field arithmetic stays in range for every exported prime (NB); hash "
@@ -193,7 +195,7 @@ PROPS = {
     },
     "C14": {
         "level": "other",
-        "rules": [("IC", 13, hasnot("repr::cnf::Cnf::from_dimacs")), ("VO", 14, None), ("DTR", 5, None)],
+        "rules": [("IC", 13, hasnot("repr::cnf::Cnf::from_dimacs")), ("VO", 15, None), ("DTR", 5, None)],
         "explanation": "Dimension analysis (Index / Count / OneBased): every function called num_vars returns a count, every "
                        "num_vars field is initialised with a count, label-indexed table sizes are counts (IC). Not decided: "
                        "permutation-ness of heuristic orders, dtree cutsets, LCA / in-order index arithmetic.",
@@ -211,7 +213,7 @@ PROPS = {
     },
     "C16": {
         "level": "proof",
-        "rules": [("GL", 8, hasnot("GL3", "component-cache", "GL6")), ("CP", 2, has("IteTable:compl-flag")), ("ST", 2, None)],
+        "rules": [("GL", 8, hasnot("GL3", "component-cache", "GL6", "GL7")), ("CP", 2, has("IteTable:compl-flag")), ("ST", 2, None)],
         "explanation": "Complete structural argument for the first sentence: Lru::get returns Some(e.val) only under the "
                        "true edge of e.key == key (GL1); insert writes one Element{key,val,hash} of its own arguments into "
                        "the slot that get reads, grow re-inserts whole triples (GL2); the adapter's hash is a function of "
